@@ -14,10 +14,12 @@ import (
 	"errors"
 	"flag"
 	"fmt"
+	"io"
 	"net"
 	"sort"
 	"strings"
 	"sync"
+	"syscall"
 	"testing"
 	"testing/synctest"
 	"time"
@@ -635,6 +637,30 @@ func TestCheck(t *testing.T) {
 		})
 	}
 
+	// healthy connections behind connections whose writes failed mid-burst
+	for g := 0; g < r.Pick(6, 60); g++ {
+		g := g
+		r.Case(fmt.Sprintf("after-failed-writes/%03d", g), func(c *mon.Case) {
+			func() {
+				defer func() {
+					if e := recover(); e != nil {
+						sig := "panic-in-case"
+						if strings.HasPrefix(fmt.Sprint(e), "deadlock:") {
+							sig = "wedge/goroutines-still-blocked-after-close"
+						}
+						c.Violation(sig, fmt.Sprintf("%v; after-failed-writes group %d", e, g), nil)
+					}
+				}()
+				synctest.Test(c.T, func(t *testing.T) {
+					failedWrites(c, r, dir, 4, r.Sub("fw", g))
+					for k := 0; k < 3; k++ {
+						runConn(c, r, dir, params{iat: (g + k) % 3, biased: k%2 == 1, scenario: []int{scBothAtOnce, scClientFirst, scLockstep}[k], polC2S: (g + k) % len(policies), polS2C: (g + 3*k) % len(policies), seed: r.Sub("fw-healthy", g, k)})
+					}
+				})
+			}()
+		})
+	}
+
 	// several connections alive at once in one process (two bridges, all IAT
 	// modes), used in an interleaved way: whatever a connection keeps between
 	// calls (receive buffers, distributions, scratch space) must be its own
@@ -726,5 +752,57 @@ func TestCheck(t *testing.T) {
 				})
 			}
 		}
+	}
+}
+
+// failedWrites: connections whose wire fails in the middle of a burst (in
+// the IAT modes a burst goes out in several wire writes, and the wire may
+// accept some of them and fail the next), on either side.  Nothing is judged
+// on them: what is judged is the healthy connection that lives in the same
+// process afterwards (runConn right behind).  Whatever the failed writes left
+// behind — in pools, package-level scratch space — must not reach it.
+func failedWrites(c *mon.Case, r *mon.Run, dir string, n int, seed uint64) {
+	rng := mon.NewRand(seed)
+	for k := 0; k < n; k++ {
+		iat := 1 + k%2
+		flag.Set("obfs4-distBias", "false")
+		b := o4.NewBridge(rng, iat)
+		sf, err := o4.ServerFactory(dir, b)
+		if err != nil {
+			c.Violation("setup/server-factory", err.Error(), nil)
+			return
+		}
+		cw, sw := memwire.Pair(memwire.Options{})
+		var sc net.Conn
+		var serr error
+		done := make(chan struct{})
+		c.Go(func() { close(done) }, func() { sc, serr = sf.WrapConn(sw) })
+		cc, cerr := o4.DialReal(cw, b.ClientArgsCert())
+		<-done
+		if cerr != nil || serr != nil {
+			c.Violation("handshake/failed", fmt.Sprintf("failed-writes family: %v / %v", cerr, serr), nil)
+			cw.Close()
+			sw.Close()
+			continue
+		}
+		// both applications drain
+		for _, x := range []net.Conn{cc, sc} {
+			x := x
+			c.Go(nil, func() { io.Copy(io.Discard, x) })
+		}
+		synctest.Wait()
+		// the writer's wire fails after one to three segments of a burst of
+		// five or more
+		wconn, half := cc, cw.Out()
+		if k%4 >= 2 {
+			wconn, half = sc, sw.Out()
+		}
+		half.SetWriteFault(half.Written()+int64(1448*(1+rng.IntN(3))+rng.IntN(1448)), syscall.EPIPE)
+		if _, err := wconn.Write(make([]byte, 7000+rng.IntN(4000))); err != nil {
+			r.Count("writes_failed_in_the_middle_of_a_burst", 1)
+		}
+		cw.Close()
+		sw.Close()
+		synctest.Wait()
 	}
 }
